@@ -151,6 +151,9 @@ def build_world(repo_root="/repo") -> World:
     c_cursor_exec.install_describe(w)
     c_merge.install(w)
     c_transforms.install(w)
+    from . import c_transforms2
+
+    c_transforms2.install(w)
     c_variables.install_methods(w)
     return w
 
